@@ -63,7 +63,8 @@ call returns normally and there is a dict `cp` of copies such that: the returned
 read as a tree, `cp` has exactly the source leaves selected by the rules, in source order (`selection_exact`); the namespace
 at the requested path afterwards is the same object as `tgt0` (same identity, every old key at its old position), its
 properties are the result of the overload loop (`C15_full_overloaded_props` says what that is), and its dict is the old dict
-updated with `cp`: an absorbed name reads the copy, every other name reads what it read before. -/
+updated with `cp`: an absorbed name reads the copy, every other name reads what it read before.  (`cp` is `copies …`, the
+dict of copies the loop of `absorb` makes; `C15_full_copy_mirrors_source` says what each copy is.) -/
 theorem C15_full_placement_selection (src dst : Ns) (nsp : Option (List Name)) (ex inc : Option (List Rule))
     (opts : Option Opts) (c : Nat) (tgt0 : Ns) (c0 : Nat)
     (hdk : DK src.ports) (hex : WF ex) (hinc : WF inc) (hna : NoAnc inc)
@@ -72,6 +73,7 @@ theorem C15_full_placement_selection (src dst : Ns) (nsp : Option (List Name)) (
     (hopts : (overload src.props (opts.getD []) tgt0.props).2 = []) :
     ∃ (tgt' : Ns) (cp : Ports),
       (exposePorts src nsp ex inc opts dst c).2.2 = .ok (keys cp) ∧
+      cp = (copies ex inc src.ports c0).1 ∧
       keys cp = absorbedNames ex inc src.ports ∧
       leafPathsF cp = (leafPathsF src.ports).filter (selected ex inc) ∧
       nsAt (nsPath nsp) (exposePorts src nsp ex inc opts dst c).1 = some tgt' ∧
@@ -86,7 +88,7 @@ theorem C15_full_placement_selection (src dst : Ns) (nsp : Option (List Name)) (
   have htgt := exposeAt_target (k := absorbTop src ex inc (opts.getD [])) _ _ _ _ _ ht
   have hnd : (keys (copies ex inc src.ports c0).1).Nodup := by
     rw [keys_copies]; exact nodup_absorbedNames ex inc (DK_nodup hdk)
-  refine ⟨(absorbTop src ex inc (opts.getD []) tgt0 c0).1, (copies ex inc src.ports c0).1, ?_, keys_copies _ _ _ _, ?_, ?_, ?_, ?_, ?_, ?_⟩
+  refine ⟨(absorbTop src ex inc (opts.getD []) tgt0 c0).1, (copies ex inc src.ports c0).1, ?_, rfl, keys_copies _ _ _ _, ?_, ?_, ?_, ?_, ?_, ?_⟩
   · simp only [exposePorts, hguard, Bool.false_eq_true, if_false, htgt.1, absorbTop_ok hrules hopts, absorbLoop_eq]
   · simp only [leafPathsF, toPT_copies _ _ _ _ hdk]
     exact selection_exact _ _ _ hex hinc hna
@@ -148,6 +150,48 @@ theorem C15_full_copies_fresh (src dst : Ns) (nsp : Option (List Name)) (ex inc 
         rw [show e = (e.1, e.2) from rfl, ids_cons, hlk]; simp [hi]
   have := (copies_fresh src.ports ex inc c0).2 i (key _ _ (by rw [keys_copies]; exact hn) hl)
   exact ⟨by omega, this.2⟩
+
+/-- **the copies carry their sources' attributes and properties, at every depth**: every entry `n ↦ o` of the dict of copies
+comes from the source port of that name: a leaf is copied as a leaf with the same attributes; a nested namespace is copied
+as a namespace whose properties are the source namespace's with the property setters run once more (`overload pr [] pr`, by
+`C15_full_overloaded_props` = `expectedProps pr []`, and equal to `pr` itself when `pr` respects "`valid_type` set ⇒ `dynamic`",
+`C15_full_nested_props_unchanged`), and whose own dict is again a dict of copies — of the nested namespace's ports under
+the stripped rules — so the statement applies to it in turn. -/
+theorem C15_full_copy_mirrors_source (ex inc : Option (List Rule)) (src : Ports) (c : Nat) (hdk : DK src)
+    (n : Name) (o : Obj) (h : lookup n (copies ex inc src c).1 = some o) :
+    ∃ p c1, lookup n src = some p ∧
+      ((∃ j a, p = .leaf j a ∧ o = .leaf c1 a) ∨
+       (∃ j pr sub, p = .ns j pr sub ∧ DK sub ∧
+          o = .ns c1 (overload pr [] pr).1 (copies (strip n ex) (strip n inc) sub (c1 + 1)).1)) := by
+  obtain ⟨p, c1, hm, hr⟩ := copies_entry ex inc src c n o (mem_of_lookup h)
+  have hl := lookup_of_mem (DK_nodup hdk) hm
+  refine ⟨p, c1, hl, ?_⟩
+  rcases hr with hr | ⟨j, pr, sub, rfl, ho⟩
+  · exact Or.inl hr
+  · have hsub : DK sub := by
+      clear hl h ho
+      induction src with
+      | nil => simp at hm
+      | cons e rest ih =>
+        simp only [List.mem_cons] at hm
+        rcases hm with rfl | hm
+        · simp only [DK] at hdk; exact hdk.2.1
+        · obtain ⟨m, q⟩ := e
+          cases q with
+          | leaf _ _ => simp only [DK] at hdk; exact ih hdk.2 hm
+          | ns _ _ _ => simp only [DK] at hdk; exact ih hdk.2.2 hm
+    exact Or.inr ⟨j, pr, sub, rfl, hsub, by rw [ho, absorbLoop_empty _ _ _ _ (DK_nodup hsub)]⟩
+
+/-- re-running the property setters on a namespace's own properties changes nothing when they respect the class's
+convention "a `valid_type` other than `None` ⇒ `dynamic` is `True`" (which the constructor and the `valid_type` setter
+establish, and only an explicit later `dynamic = False` breaks). -/
+theorem C15_full_nested_props_unchanged (pr : Props) (hl : pr.length = nProps)
+    (hconv : pr.getD vtIdx 0 ≠ noneAtom → pr.getD dynIdx 0 = trueAtom) : (overload pr [] pr).1 = pr := by
+  rw [overload_props pr pr [] hl hl]
+  match pr, hl with
+  | [s0, s1, s2, s3, s4, s5, s6], _ =>
+    simp [expectedProps, effProp, optGet, nProps, List.range, List.range.loop, vtIdx, dynIdx, noneAtom, trueAtom] at hconv ⊢
+    intro h; exact (hconv h).symm
 
 /-- **which namespace is the target**: the namespace `create_port_namespace` hands to `absorb` is the namespace that was
 at the requested path (re-used as it is, nothing allocated), or — if the path did not exist — a new, empty namespace with
